@@ -19,6 +19,11 @@ def _impl():
     return F, T
 
 
+def _keyobj(seed):
+    from nacl.signing import SigningKey
+    return SigningKey(seed)
+
+
 def scripts_for(r=None):
     mk = lambda m, v: push(bytes([m])) + op('POP0') + (op('TRUE') if v else op('FALSE'))
     return {'1': mk(1, True), '2': mk(2, True), '3': mk(3, False)}
@@ -35,7 +40,7 @@ def first_push(b: bytes) -> bytes:
     raise ValueError('not a push')
 
 
-def one(F, T, k, seeds, sf, scr, bit=0):
+def one(F, T, k, seeds, sf, scr, bit=0, hashsize=None, keyobj=False):
     """bit: which single-bit allowed-flags byte concretises the flag classes: permitted flag = 1 << bit (it excludes
     sigfield{bit+1}), non-permitted flag = the next bit; the covered field that is perturbed is sigfield{(bit+1)%8+1}"""
     lock_seed, other_seed = seeds
@@ -55,7 +60,7 @@ def one(F, T, k, seeds, sf, scr, bit=0):
     elif lk == 'ms11':
         lock = T.make_multisig_lock([pk], 1, ALLOWED)
     elif lk == 'sh':
-        lock = T.make_scripthash_lock(S['1'])
+        lock = T.make_scripthash_lock(S['1'], hashsize) if hashsize else T.make_scripthash_lock(S['1'])
     elif lk == 'gr':
         lock = T.make_graftroot_lock(pk, ALLOWED)
     else:
@@ -70,7 +75,7 @@ def one(F, T, k, seeds, sf, scr, bit=0):
     elif w == 'grkey':
         wit = bytes(T.make_graftroot_witness_keyspend(wseed, dict(sf), fh).bytes)
     elif w == 'grsur':
-        honest = bytes(T.make_graftroot_witness_surrogate(sseed, S['1']).bytes)
+        honest = bytes(T.make_graftroot_witness_surrogate(_keyobj(sseed) if keyobj else sseed, S['1']).bytes)
         sig = first_push(honest)
         wit = push(sig) + push(scr[k['script']]) + op('TRUE')
         if k['script'] == '1' and wit != honest:
@@ -181,7 +186,7 @@ def record_random(args):
         match = {'ss': ['ss'], 'ss2': ['ss2'], 'ms11': ['ss'], 'sh': ['sh'], 'gr': ['grkey', 'grsur'], 'ga': ['gakey', 'gascr']}
         k['wit'] = r.choice(match[k['lock']]) if r.random() < 0.7 else r.choice(['ss', 'ss2', 'sh', 'grkey', 'grsur', 'gakey', 'gascr'])
         try:
-            got = one(F, T, k, (s1, s2), sf, scr, bit)
+            got = one(F, T, k, (s1, s2), sf, scr, bit, hashsize=r.choice([None, None, 16, 20, 32, 64]), keyobj=r.random() < 0.3)
         except BaseException as e:
             if isinstance(e, (KeyboardInterrupt, SystemExit)):
                 raise
